@@ -10,6 +10,9 @@ def run(ctx):
     from contracts import c12_newick as NW
 
     NW.verify_all(ctx, Repo(), "C12")
+    from contracts import c11_pandas as PD
+
+    PD.verify_c12(ctx, Repo(), "C12")
     ctx.trust("pandas (DataFrame, sort_values, explode, groupby, concat, to_csv) and the clustered branch of get_labels_table / get_clone_table are outside the contracts (bounded stand-in only)")
     ctx.assume("A-NAMES: data point names are unique and data[i].idx == i (established by the loader, C17)")
     ctx.extra["explanation"] = ("Deductive (any number of data points, any labelling): the unclustered branch of get_labels_table hands pandas one record (name, clone) per labelled point and one "
